@@ -33,7 +33,7 @@ func fuzzSeeds(f *testing.F) {
 func FuzzC04Parse(f *testing.F) {
 	fuzzSeeds(f)
 	f.Fuzz(func(t *testing.T, data []byte) {
-		if len(data) > 1<<18 {
+		if len(data) > 1<<16 { // (the native fuzzer kills any execution above 10 s: inputs stay small enough for a quadratic pass)
 			return
 		}
 		if v, err := hx.ParseJV(data); err == nil && maxLicenceEntries(v) > kf05MaxLicences {
@@ -52,7 +52,7 @@ func FuzzC06Sniff(f *testing.F) {
 		f.Add([]byte(s))
 	}
 	f.Fuzz(func(t *testing.T, data []byte) {
-		if len(data) > 1<<18 {
+		if len(data) > 1<<16 { // (the native fuzzer kills any execution above 10 s: inputs stay small enough for a quadratic pass)
 			return
 		}
 		commonSniffChecks(t, data, "fuzz input")
